@@ -440,26 +440,32 @@ const TARGETS: [&str; 4] = ["obj03", "obj07", "obj31", "\u{221A}"];
 
 fn work(thorough: bool, out: &Out) {
     let maxlen = if thorough { 6 } else { 4 };
-    let mut n = 0u64;
+    let workers: usize = if thorough { std::env::var("MELDA_VERIF_WORKERS").ok().and_then(|s| s.parse().ok()).unwrap_or(3) } else { 1 };
+    let mut hs: Vec<Vec<usize>> = vec![];
     for s in sequences(OPS.len(), maxlen) {
         let mut h = vec![0usize, 1usize];
         h.extend(s);
-        history_case(&h, out);
-        n += 1;
+        hs.push(h);
     }
-    for h in scripted() {
-        history_case(&h, out);
-        n += 1;
-    }
-    out.note(&format!("{} audited histories", n));
-    let step = if thorough { 1 } else { 5 };
-    for g in ["root", "rich"] {
-        meld_damaged(g, step, out);
-    }
-    let step = if thorough { 1 } else { 3 };
-    for t in TARGETS {
-        reread_damaged(t, step, out);
-    }
+    hs.extend(scripted());
+    out.note(&format!("{} audited histories", hs.len()));
+    orch::fan_out(out, workers, hs, |part: Vec<Vec<usize>>, out: &Out| {
+        for h in &part {
+            history_case(h, out);
+        }
+    });
+    let (s1, s2) = if thorough { (1, 1) } else { (5, 3) };
+    let mut parts: Vec<(bool, &'static str, usize)> = vec![(true, "root", s1), (true, "rich", s1)];
+    parts.extend(TARGETS.iter().map(|t| (false, *t, s2)));
+    orch::fan_out(out, workers, parts, |part: Vec<(bool, &'static str, usize)>, out: &Out| {
+        for (meld, name, step) in &part {
+            if *meld {
+                meld_damaged(name, *step, out);
+            } else {
+                reread_damaged(name, *step, out);
+            }
+        }
+    });
 }
 
 pub fn run(thorough: bool, _seed: u64) -> Report {
@@ -471,7 +477,7 @@ pub fn run(thorough: bool, _seed: u64) -> Report {
             "(a) prefix [A.edit, A.commit] + every sequence of <= 4 ops over {A.edit, A.commit, B.edit, B.commit, meld A>B+refresh, meld B>A+refresh} (1555 histories) + 3 scripted histories of 20..24 ops, 4 storage checks on both adapters after every step; (b) 2 source groups (root-only, nested objects + array) x {second pack, second block file} x every 5th byte position x up to 5 replacement bytes (xor 1, space, '}', '\"', '0'); (c) 4 target objects (first pack, second pack, newest, root) out of 33 x every 3rd byte of the object's text in its pack x up to 5 replacement bytes, 20 other reads in between"
         })
         .to_string(),
-        "exhaustive enumeration of the stated domains; one case per history and storage check, per damaged copy; non-trivial = (a) a meld happens after at least two commits, (b)/(c) every damaged copy; 10 s watchdog",
+        "exhaustive enumeration of the stated domains; one case per history and storage check, per damaged copy; non-trivial = (a) a meld happens after at least two commits, (b)/(c) every damaged copy; 10 s watchdog per worker thread (thorough: work spread over 3 threads)",
     );
     if std::env::var_os("RAYON_NUM_THREADS").is_none() {
         std::env::set_var("RAYON_NUM_THREADS", "2");
